@@ -272,6 +272,9 @@ def rows():
     return R
 
 
+KNOWN_GUARDS = set()        # (function def, block) of every integrity comparison matched by the table (used by C03.R9)
+
+
 def rule_table(facts):
     r = report.RuleResult("C06.R1", "every integrity field is compared with its counterpart; mismatch -> Err; no Ok path skips it")
     r3 = report.RuleResult("C06.R3", "comparisons are exact: no narrowing cast or wrapping arithmetic on a compared field")
@@ -292,6 +295,7 @@ def rule_table(facts):
             continue
         matched[row.rid] = len(hit)
         for (bb, t, z, nz) in hit:
+            KNOWN_GUARDS.add((b.defk, bb))
             r.sites += 1
             where = "%s (%s)" % (fn, b.blocks[bb].term.span)
             rej = reject_edge(t, z, nz)
